@@ -664,18 +664,28 @@ func vlkRunBehaviour(t testing.TB, files *vlkFiles, b *vlkBeh, salt int, boundMu
 			w.await(5*time.Millisecond, func(pr vlkProj) bool { return len(vlkMatch(pr, st.St, escaped)) == 0 })
 			continue
 		}
-		pr, ok := w.await(bound, func(pr vlkProj) bool { return len(vlkMatch(pr, st.St, escaped)) == 0 })
-		if !ok {
-			// a request that was blocked in RLock when a reload returned escapes the gates (see vlkMatch)
+		// a request that was blocked in RLock when a reload returned escapes the gates (see vlkMatch)
+		escapes := func(pr vlkProj) []string {
 			anyReload := false
 			for _, dn := range pr.Mdone {
 				anyReload = anyReload || dn
 			}
+			var es []string
 			for r, a := range st.St.At {
 				if anyReload && pr.At[r] == "done" && (strings.HasPrefix(a, "pre_") || strings.HasPrefix(a, "post_")) && !escaped[r] {
-					escaped[r] = true
-					out.Ungated++
+					es = append(es, r)
 				}
+			}
+			return es
+		}
+		pr, ok := w.await(bound, func(pr vlkProj) bool { return len(vlkMatch(pr, st.St, escaped)) == 0 || len(escapes(pr)) > 0 })
+		if ok && len(vlkMatch(pr, st.St, escaped)) != 0 {
+			ok = false
+		}
+		if !ok {
+			for _, r := range escapes(pr) {
+				escaped[r] = true
+				out.Ungated++
 			}
 			if len(escaped) > 0 {
 				// from here on the real run is no longer the specification's behaviour step by step (the escaped
@@ -822,6 +832,8 @@ func TestVerifLocksReplay(t *testing.T) {
 	defer files.cleanup()
 	maxStuck := vEnvInt("VERIF_MAX_STUCK", 400)
 	maxBad := vEnvInt("VERIF_MAX_BAD", 3)
+	budget := time.Duration(vEnvInt("VERIF_REPLAY_BUDGET_S", 1500)) * time.Second
+	t0 := time.Now()
 	n, steps, nstuck, nskipped, nbad, nfull := 0, 0, 0, 0, 0, 0
 	classes := map[string]int{}
 	vReadLines(t, func(line []byte) {
@@ -829,7 +841,7 @@ func TestVerifLocksReplay(t *testing.T) {
 		if err := json.Unmarshal(line, &b); err != nil {
 			t.Fatalf("bad behaviour: %v", err)
 		}
-		if nbad >= maxBad {
+		if nbad >= maxBad || time.Since(t0) > budget {
 			nskipped++
 			return
 		}
@@ -879,6 +891,9 @@ func TestVerifLocksReplay(t *testing.T) {
 			}
 			sort.Strings(mixed)
 			if len(bad) > 0 || len(mixed) > 0 || len(o.Errs) > 0 {
+				classes["response"]++
+			}
+			if (len(bad) > 0 || len(mixed) > 0 || len(o.Errs) > 0) && classes["response"] <= 25 {
 				out.Emit(map[string]any{"kind": "response", "idx": n, "bad": bad, "mixed": mixed, "errs": o.Errs, "resp": o.Resp,
 					"spec_whole": b.Whole, "sched": vlkSched(&b, len(b.Steps))})
 			}
